@@ -62,7 +62,7 @@ LEVEL_TEXT = (
     "nothing.  Search over histories <= 40 rules; not a proof."
 )
 RULE = (
-    "case = zone kind (versioned | btree) x relativize + 6-40 rules out of open_reader(latest | "
+    "case = zone kind (versioned | btree) x relativize + 6-40 (thorough: 60) rules out of open_reader(latest | "
     "id=k | serial=s), close_reader, write_commit(ops), write_rollback(ops), set_max_versions, "
     "set_pruning_policy(default | keep-all | drop-all | keep-if-id-multiple-of-k | len>n | "
     "returns-None), probe_id(k), probe_snapshot, attack_snapshot(object class, index, selector); "
@@ -1177,7 +1177,7 @@ def _rule():
 def histories(draw, max_rules):
     kind = draw(st.sampled_from(["versioned", "btree"]))
     rel = draw(st.booleans())
-    n = draw(st.sampled_from([6, 10, 15, 20, 25, 30, 35, max_rules]))
+    n = draw(st.sampled_from([6, 10, 15, 20, 25, 30, 35, max_rules, max_rules]))
     rules = [draw(_rule()) for _ in range(n)]
     return {"kind": kind, "relativize": rel, "rules": rules}
 
@@ -1221,7 +1221,7 @@ def parts(tier):
         Part(
             "histories",
             run,
-            strategy=histories(40),
+            strategy=histories(40 if tier == "quick" else 60),
             n={"quick": 1600, "thorough": 16000},
             require=_require(),
             shards={"quick": 16, "thorough": 16},
